@@ -153,6 +153,11 @@ func (r *ReaderStream) ReassemblyComplete() {
 // slices.
 func (r *ReaderStream) stripEmpty() {
 	for len(r.current) > 0 && len(r.current[0].Bytes) == 0 {
+		if r.LossErrors && !r.lossReported && r.current[0].Skip != 0 {
+			// A gap followed by no data (e.g. a bare FIN after lost segments)
+			// must still be reported by Read before the slice is dropped.
+			return
+		}
 		r.current = r.current[1:]
 		r.lossReported = false
 	}
